@@ -35,7 +35,8 @@ def gen_dataset(R, tag, ncols=None, with_pids=False, n=None):
 
 def members_of(zip_path):
     z = zipfile.ZipFile(zip_path)
-    return {m: hashlib.sha256(z.read(m)).hexdigest()[:12] for m in z.namelist()}
+    # member names are hex-encoded: they contain the blob name, which may hold blanks and characters the line protocol uses
+    return {m.encode().hex(): hashlib.sha256(z.read(m)).hexdigest()[:12] for m in z.namelist()}
 
 
 _FLIPPED = {}      # path -> offsets already flipped since the file was last written by a build (a second flip of the same byte would repair it)
@@ -77,55 +78,77 @@ def stream_histories(ctx, built, count, name="S-blob"):
     lines, exps, cases = [], [], []
     try:
         for ci in range(count):
-            same_cols = R.random() < 0.5
+            # blob names: plain, and names with characters that are special to glob / fnmatch / regular expressions
+            bname = R.choice(["b", "b", "census[2021]", "a*b", "q?x", "v1.0 (final)", "x+y"]) if ci >= 3 else ["b", "census[2021]", "b"][ci]
+            same_cols = R.random() < (0.5 if bname == "b" else 0.2) and ci != 1
             d1 = gen_dataset(R, 1); d2 = gen_dataset(R, 2, ncols=len(d1[0].columns) if same_cols else None)
             if same_cols:
                 d2[0].columns = d1[0].columns
             data = {1: d1, 2: d2}
-            # reference member sets (fresh directory per dataset)
-            ref = {}
+            # reference member sets (fresh directory per dataset); the archives are kept to be copied in by `i` operations
+            ref, refzip = {}, {}
             for ds, (df, pids, _) in data.items():
                 d = tempfile.mkdtemp(prefix="sdxblobref")
-                with quiet(): SyndiffixBlobBuilder("b", d).write(df, pids)
-                ref[ds] = members_of(os.path.join(d, "b.sdxblob.zip")); shutil.rmtree(d)
+                with quiet(): SyndiffixBlobBuilder(bname, d).write(df, pids)
+                ref[ds] = members_of(os.path.join(d, bname + ".sdxblob.zip")); refzip[ds] = open(os.path.join(d, bname + ".sdxblob.zip"), "rb").read(); shutil.rmtree(d)
             L = R.randint(3, ctx.scale(6, 10))
-            directed = [["b1", "o", "xflip", "o"], ["b1", "b2", "o"], ["n", "w1", "o", "w2", "o"], ["n", "b1", "o", "w2", "o"], ["b1", "d", "o"], ["b1", "xtruncate", "o"],
+            directed = [["b1", "o", "i2", "o"], ["b1", "o", "b2", "o"], ["b2", "o", "i1", "o", "i2", "o"], ["b1", "o", "xflip", "o"], ["b1", "b2", "o"], ["n", "w1", "o", "w2", "o"], ["n", "b1", "o", "w2", "o"], ["b1", "d", "o"], ["b1", "xtruncate", "o"],
                         ["w1", "w2", "o"], ["b1", "o", "b2", "xflip", "o"]]
             if ci < len(directed):
                 ops = directed[ci]
             else:
-                ops = [R.choice(["b1", "b2", "w1", "w2", "n", "o", "o", "o", "x", "xflip", "d"]) for _ in range(L)]
+                ops = [R.choice(["b1", "b2", "w1", "w2", "n", "o", "o", "o", "x", "xflip", "d", "i1", "i2"]) for _ in range(L)]
             d = tempfile.mkdtemp(prefix="sdxblob")
-            z = os.path.join(d, "b.sdxblob.zip")
+            z = os.path.join(d, bname + ".sdxblob.zip")
             exp, how = [], []
             builder = None
             try:
                 for op in ops:
                     if op == "n":                      # a builder object constructed now and used by later `w` operations
-                        with quiet(): builder = SyndiffixBlobBuilder("b", d)
+                        with quiet(): builder = SyndiffixBlobBuilder(bname, d)
                         exp.append("done")
                     elif op in ("b1", "b2", "w1", "w2"):
                         ds = int(op[1]); df, pids, _ = data[ds]
                         with quiet():
                             if op[0] == "w":
-                                builder = builder or SyndiffixBlobBuilder("b", d)
+                                builder = builder or SyndiffixBlobBuilder(bname, d)
                                 builder.write(df, pids)
                             else:
-                                SyndiffixBlobBuilder("b", d).write(df, pids)
+                                SyndiffixBlobBuilder(bname, d).write(df, pids)
                         exp.append("built")
+                    elif op in ("i1", "i2"):           # an archive built elsewhere (another directory / process) is copied over the archive
+                        open(z, "wb").write(refzip[int(op[1])]); _FLIPPED.pop((z, len(refzip[int(op[1])])), None)
+                        exp.append("done")
                     elif op == "o":
                         try:
-                            with quiet(): r = SyndiffixBlobReader("b", d)
+                            with quiet(): r = SyndiffixBlobReader(bname, d)
                             served = {}
                             for f in os.listdir(r.path_to_blob_dir):
-                                served[f] = hashlib.sha256(open(os.path.join(r.path_to_blob_dir, f), "rb").read()).hexdigest()[:12]
+                                served[f.encode().hex()] = hashlib.sha256(open(os.path.join(r.path_to_blob_dir, f), "rb").read()).hexdigest()[:12]
                             tags = []
                             for m, h in served.items():
                                 tag = [ds for ds in (1, 2) if ref[ds].get(m) == h]
                                 tags.append(f"{m}@{'*' if len(tag) == 2 else tag[0] if tag else '?'}")     # '*': identical in both datasets (metadata)
                             exp.append("served:" + ",".join(sorted(tags)))
                         except Exception as e:
-                            exp.append("error")
+                            exp.append("error"); r = None
+                        if r is not None:
+                            # what the reader serves depends only on the archive: a reader opened on a copy of the archive in a fresh directory serves the same tables
+                            d2 = tempfile.mkdtemp(prefix="sdxblobcopy")
+                            try:
+                                shutil.copy(z, os.path.join(d2, bname + ".sdxblob.zip"))
+                                with quiet(): r2 = SyndiffixBlobReader(bname, d2)
+                                dig = lambda rd: {tuple(k): hashlib.sha256(rd.catalog.read(k).to_csv(index=False).encode()).hexdigest()[:12] for k in rd.catalog.keys()}
+                                t1, t2 = dig(r), dig(r2)
+                                if t1 != t2:
+                                    diff = sorted(k for k in set(t1) | set(t2) if t1.get(k) != t2.get(k))
+                                    ctx.oracle_fail(f"after {ops[:len(exp)]} a reader serves {len(diff)} table(s) (e.g. columns {list(diff[0])}) that differ from what a reader opened on a "
+                                                    f"copy of the same archive in a fresh directory serves: the answer depends on more than the archive",
+                                                    {"ops": ops[:len(exp)], "blob_name": bname, "same_columns": same_cols, "differing_tables": [list(k) for k in diff[:5]]}, "served-not-archive")
+                            except Exception as e:
+                                ctx.notes.append(f"copy-reader comparison failed: {type(e).__name__}: {str(e)[:100]}")
+                            finally:
+                                shutil.rmtree(d2, ignore_errors=True)
                     elif op.startswith("x"):
                         if os.path.exists(z): how.append(damage(z, R, op[1:] or None))
                         exp.append("done")
@@ -138,6 +161,8 @@ def stream_histories(ctx, built, count, name="S-blob"):
             for op in ops:
                 if op in ("b1", "b2", "w1", "w2"):
                     ds = int(op[1]); toks.append(f"b:{ds}:" + ",".join(sorted(ref[ds])))
+                elif op in ("i1", "i2"):
+                    ds = int(op[1]); toks.append(f"i:{ds}:" + ",".join(sorted(ref[ds])))
                 elif op == "n": toks.append("n")
                 elif op.startswith("x"): toks.append("x")
                 else: toks.append(op)
@@ -145,16 +170,16 @@ def stream_histories(ctx, built, count, name="S-blob"):
             lines.append("blob " + " ".join(toks)); exps.append(" ".join(exp))
             prev = None; interesting = False
             for op in ops:
-                if op[0] in "bw" and prev and prev != op[1]: interesting = True
-                if op[0] in "bw": prev = op[1]
+                if op[0] in "bwi" and prev and prev != op[1]: interesting = True
+                if op[0] in "bwi": prev = op[1]
             interesting = interesting or any(a.startswith("x") and b == "o" for a, b in zip(ops, ops[1:]))
-            case = {"ops": ops, "same_columns": same_cols, "damage": how, "impl": exp}
+            case = {"ops": ops, "blob_name": bname, "same_columns": same_cols, "damage": how, "impl": exp}
             case["ambiguous"] = sorted(m for m in ref[1] if ref[2].get(m) == ref[1][m])
-            cases.append(case); St.count((tuple(ops), same_cols, ci), interesting, case, tag="same" if same_cols else "diff")
+            cases.append(case); St.count((tuple(ops), same_cols, ci), interesting, case, tag=("same" if same_cols else "diff") + ("/plain-name" if bname == "b" else "/special-name"))
             # C16 directly on the real outcome: a reader never serves members of the other dataset nor unknown files
             last = None
             for op, e in zip(ops, exp):
-                if op[0] in "bw": last = int(op[1])
+                if op[0] in "bwi": last = int(op[1])
                 if e.startswith("served:"):
                     tags = {t.rsplit("@", 1)[1] for t in e[7:].split(",") if t} - {"*"}
                     if tags - {str(last)}:
